@@ -8,11 +8,13 @@ package vlim
 import (
 	"context"
 	"fmt"
+	"net"
 	"reflect"
 	"runtime"
 	"sort"
 	"strconv"
 	"strings"
+	"sync"
 	"time"
 	"unsafe"
 
@@ -273,7 +275,12 @@ func BucketSetString(p reflect.Value, keyID func(key string) int) string {
 		id := keyID(k)
 		ents = append(ents, ent{id, fmt.Sprintf("%d:%s:%s", id, users, chanLen(b.FieldByName("r")))})
 	}
-	sort.Slice(ents, func(i, j int) bool { return ents[i].id < ents[j].id })
+	sort.Slice(ents, func(i, j int) bool {
+		if ents[i].id != ents[j].id {
+			return ents[i].id < ents[j].id
+		}
+		return ents[i].s < ents[j].s
+	})
 	var l []string
 	for _, e := range ents {
 		l = append(l, e.s)
@@ -412,4 +419,381 @@ func RunCtx(parent context.Context, fn func(ctx context.Context) error) (err err
 			return fmt.Errorf("vlim.RunCtx: call did not finish"), cancelled, nil
 		}
 	}
+}
+
+// ---- source addresses and the key of the per-IP bucket set (strengthening round 5) ----
+//
+// Op lines name source ADDRESSES by id. The table below turns an id into the net.IP handed to the code:
+//
+//	1..99, 900   IPv4, spelled by the harness (v4 func), 4-byte form
+//	100+10n+h    2001:db8:0:n::h  (n 0..4, h 0..9: ten addresses in each of five /64 networks; h = 0 is the
+//	             network address itself)
+//	150+x        the IPv4-mapped IPv6 (16-byte) form of IPv4 address x (x 1..49)
+//	200..206     ::1, fe80::1, two more hosts of 2001:db8:0:1::/64 with high host bits, NAT64, 6to4, another /48
+//
+// Which bucket key the code derives from an address is NOT assumed: IPKeys observes it on a real limits.Group
+// (keys and users of the ip bucket table after a TakeMsg that is rolled back at the source scope, and after a
+// TakeMsg/ReleaseMsg pair) and hands the result to the model through the k.<addr>.<take>.<undo>.<rel> tokens.
+
+// AllAddrIDs lists the address ids of the table in ascending order.
+func AllAddrIDs() []int {
+	var ids []int
+	for i := 1; i <= 12; i++ {
+		ids = append(ids, i)
+	}
+	for i := 100; i <= 149; i++ {
+		ids = append(ids, i)
+	}
+	for i := 151; i <= 162; i++ {
+		ids = append(ids, i)
+	}
+	for i := 200; i <= 206; i++ {
+		ids = append(ids, i)
+	}
+	return append(ids, 900)
+}
+
+var oddAddrs = []string{"::1", "fe80::1", "2001:db8:0:1:ffff:ffff:ffff:ffff", "2001:db8:0:1:8000::1", "64:ff9b::a00:1", "2002:a00:1::1", "2001:db8:1::1"}
+
+// Addr is the address with the given id; v4 spells the IPv4 ones.
+func Addr(id int, v4 func(int) net.IP) net.IP {
+	switch {
+	case id >= 100 && id < 150:
+		ip := net.ParseIP("2001:db8::")
+		ip[7] = byte((id - 100) / 10)
+		ip[15] = byte((id - 100) % 10)
+		return ip
+	case id > 150 && id < 200:
+		ip := make(net.IP, 16)
+		copy(ip, v4(id-150).To16())
+		return ip
+	case id >= 200 && id < 200+len(oddAddrs):
+		return net.ParseIP(oddAddrs[id-200])
+	}
+	ip := make(net.IP, 4)
+	copy(ip, v4(id).To4())
+	return ip
+}
+
+// AddrClass names the kind of address (for the recorded distribution).
+func AddrClass(id int) string {
+	switch {
+	case id >= 100 && id < 150:
+		if id%10 == 0 {
+			return "v6net"
+		}
+		return "v6"
+	case id > 150 && id < 200:
+		return "v4mapped"
+	case id >= 200 && id < 300:
+		return "v6odd"
+	}
+	return "v4"
+}
+
+// MonID is the identity of the IP for the monitors, from the property text alone: an IPv4 address and its
+// IPv4-mapped IPv6 form are the same IP; every other address is counted on its own (an under-approximation
+// when the code groups addresses, e.g. by /64: never a false alarm).
+func MonID(id int) int {
+	if id > 150 && id < 200 {
+		return id - 150
+	}
+	return id
+}
+
+// AddrPool draws n address ids: sometimes IPv4 only (1..n), otherwise a mixture in which several addresses
+// of one /64, an IPv4 address together with its mapped form, and the odd ones occur.
+func AddrPool(intn func(int) int, n int) []int {
+	pool := make([]int, 0, n)
+	if intn(100) < 30 {
+		for i := 1; i <= n; i++ {
+			pool = append(pool, i)
+		}
+		return pool
+	}
+	net6 := 1 + intn(2)
+	has := func(x int) bool {
+		for _, y := range pool {
+			if y == x {
+				return true
+			}
+		}
+		return false
+	}
+	for tries := 0; len(pool) < n && tries < 200; tries++ {
+		var x int
+		switch c := intn(100); {
+		case c < 25:
+			x = 1 + intn(4)
+		case c < 60:
+			x = 100 + 10*net6 + intn(5) // same /64
+		case c < 72:
+			x = 100 + 10*(3-net6) + 1 + intn(4) // the other /64
+		case c < 90:
+			x = 151 + intn(4)
+		default:
+			x = 200 + intn(len(oddAddrs))
+		}
+		if !has(x) {
+			pool = append(pool, x)
+		}
+	}
+	for i := 1; len(pool) < n; i++ {
+		if !has(i) {
+			pool = append(pool, i)
+		}
+	}
+	return pool
+}
+
+type ipKeyEnt struct {
+	takeStr          string
+	take, undo, rel  int
+	undoSame, relSam bool
+	note             string
+}
+
+// IPKeys: the key derivation of the ip scope as observed on the real code, for every address of the table.
+type IPKeys struct {
+	v4    func(int) net.IP
+	once  sync.Once
+	ent   map[int]ipKeyEnt
+	byStr map[string]int
+	rev   map[string]int
+}
+
+func NewIPKeys(v4 func(int) net.IP) *IPKeys { return &IPKeys{v4: v4} }
+
+// ipUsers reads key -> users of the ip bucket table.
+func ipUsers(g *limits.Group) map[string]int {
+	out := map[string]int{}
+	p := field(reflect.ValueOf(g).Elem(), "ip")
+	if p.IsNil() {
+		return out
+	}
+	bs := p.Elem()
+	lck := field(bs, "mLck").Addr().Interface().(interface {
+		Lock()
+		Unlock()
+	})
+	lck.Lock()
+	defer lck.Unlock()
+	it := bs.FieldByName("m").MapRange()
+	for it.Next() {
+		n := 0
+		if u := it.Value().Elem().FieldByName("users"); u.IsValid() {
+			n = int(u.Int())
+		}
+		out[it.Key().String()] = n
+	}
+	return out
+}
+
+func setMaxBuckets(g *limits.Group, set string, n int) {
+	p := field(reflect.ValueOf(g).Elem(), set)
+	if !p.IsNil() {
+		p.Elem().FieldByName("MaxBuckets").Set(reflect.ValueOf(n))
+	}
+}
+
+func (k *IPKeys) probe(id int) (e ipKeyEnt) {
+	defer func() {
+		if r := recover(); r != nil {
+			e.note += fmt.Sprintf(" panic while probing: %v", r)
+		}
+	}()
+	e.undoSame, e.relSam = true, true
+	ip := Addr(id, k.v4)
+	var cfg Cfg
+	cfg.Scopes[1] = []Lim{{Sem: true, N: 3}}
+	cfg.Scopes[2] = []Lim{{Sem: true, N: 1}}
+	cfg.Reap, cfg.MaxB = 3600, 20010
+	helper := net.IPv4(192, 0, 2, 250)
+	ctx, cancel := context.WithTimeout(context.Background(), 20*time.Second)
+	defer cancel()
+
+	// (1) take key and release key: TakeMsg, ReleaseMsg on a fresh group
+	g2, p, err := NewGroup(cfg)
+	if p != nil || err != nil {
+		e.note = fmt.Sprintf("probe group: %v %v", p, err)
+		return e
+	}
+	defer CloseGroup(g2)
+	if err := g2.TakeMsg(ctx, ip, "probe.example"); err != nil {
+		e.note = "probe TakeMsg failed: " + err.Error()
+		return e
+	}
+	for s, u := range ipUsers(g2) {
+		if u > 0 {
+			e.takeStr = s
+		}
+	}
+	g2.ReleaseMsg(ip, "probe.example")
+	if ipUsers(g2)[e.takeStr] != 0 {
+		e.relSam = false
+		e.note += fmt.Sprintf(" ReleaseMsg(%v) left the bucket %q taken by TakeMsg(%v) in use;", ip, e.takeStr, ip)
+	}
+
+	// (2) roll-back key: the source scope refuses (its table is full: one bucket in use, MaxBuckets 0)
+	g, p, err := NewGroup(cfg)
+	if p != nil || err != nil {
+		e.note += fmt.Sprintf(" probe group: %v %v", p, err)
+		return e
+	}
+	defer CloseGroup(g)
+	if err := g.TakeMsg(ctx, helper, "helper.example"); err != nil {
+		e.note += " helper TakeMsg failed: " + err.Error()
+		return e
+	}
+	setMaxBuckets(g, "source", 0)
+	before := ipUsers(g)
+	err = g.TakeMsg(ctx, ip, "probe.example")
+	after := ipUsers(g)
+	if err == nil {
+		e.note += " TakeMsg succeeded although the source table is full;"
+		g.ReleaseMsg(ip, "probe.example")
+		return e
+	}
+	for s, u := range after {
+		if u != before[s] {
+			e.undoSame = false
+			e.note += fmt.Sprintf(" TakeMsg(%v) refused at the source scope (%v) left the ip bucket %q with users %d instead of %d;", ip, err, s, u, before[s])
+		}
+	}
+	if _, ok := after[e.takeStr]; !ok {
+		e.note += fmt.Sprintf(" take key differs between calls (%q not in %v);", e.takeStr, after)
+		e.undoSame = false
+	}
+	return e
+}
+
+// Probe observes every address of the table once (idempotent).
+func (k *IPKeys) Probe() {
+	k.once.Do(func() {
+		k.ent, k.byStr, k.rev = map[int]ipKeyEnt{}, map[string]int{}, map[string]int{}
+		for _, id := range AllAddrIDs() {
+			e := k.probe(id)
+			if t, ok := k.byStr[e.takeStr]; ok && e.takeStr != "" {
+				e.take = t
+			} else {
+				e.take = id
+				if e.takeStr != "" {
+					k.byStr[e.takeStr] = id
+				}
+			}
+			e.undo, e.rel = e.take, e.take
+			if !e.undoSame {
+				e.undo = 5000 + id
+			}
+			if !e.relSam {
+				e.rel = 6000 + id
+			}
+			k.ent[id] = e
+			if _, ok := k.rev[string(Addr(id, k.v4))]; !ok {
+				k.rev[string(Addr(id, k.v4))] = id
+			}
+		}
+	})
+}
+
+// Entry: the key ids (take, roll-back, release) of an address; ids outside the table are their own key.
+func (k *IPKeys) Entry(id int) (take, undo, rel int) {
+	k.Probe()
+	if e, ok := k.ent[id]; ok {
+		return e.take, e.undo, e.rel
+	}
+	return id, id, id
+}
+
+// Unlawful describes how the key law is broken for the address ("" = TakeMsg, its roll-back and ReleaseMsg
+// were observed to use the same bucket).
+func (k *IPKeys) Unlawful(id int) string {
+	k.Probe()
+	e := k.ent[id]
+	if e.undoSame && e.relSam {
+		return ""
+	}
+	return strings.TrimSpace(e.note)
+}
+
+// Broken tells which of the two was observed to use another bucket than TakeMsg: the roll-back, ReleaseMsg.
+func (k *IPKeys) Broken(id int) (undo, rel bool) {
+	k.Probe()
+	e := k.ent[id]
+	return !e.undoSame, !e.relSam
+}
+
+// ProbeNotes lists anything unexpected seen while probing (lawful or not).
+func (k *IPKeys) ProbeNotes() []string {
+	k.Probe()
+	var out []string
+	for _, id := range AllAddrIDs() {
+		if n := k.ent[id].note; n != "" {
+			out = append(out, fmt.Sprintf("address %d (%v): %s", id, Addr(id, k.v4), strings.TrimSpace(n)))
+		}
+	}
+	return out
+}
+
+// AddrID is the id of an address of the table (-1 = not in the table).
+func (k *IPKeys) AddrID(ip net.IP) int {
+	k.Probe()
+	if id, ok := k.rev[string(ip)]; ok {
+		return id
+	}
+	if v := ip.To4(); v != nil {
+		if id, ok := k.rev[string(v)]; ok {
+			return id
+		}
+	}
+	if id, ok := k.rev[string(ip.To16())]; ok {
+		return id
+	}
+	return -1
+}
+
+// KeyID names a key of the ip bucket table: the id under which the string was observed as a take key;
+// 7000+x for the unobserved spelling of table address x; 8000 otherwise.
+func (k *IPKeys) KeyID(key string) int {
+	k.Probe()
+	if id, ok := k.byStr[key]; ok {
+		return id
+	}
+	if ip := net.ParseIP(key); ip != nil {
+		if id := k.AddrID(ip); id >= 0 {
+			return 7000 + id
+		}
+	}
+	return 8000
+}
+
+// Tokens: the k.<addr>.<take>.<undo>.<rel> tokens for the addresses (only where not the identity), sorted.
+func (k *IPKeys) Tokens(ids []int) []string {
+	k.Probe()
+	ids = append([]int{}, ids...)
+	sort.Ints(ids)
+	var out []string
+	last := -1
+	for _, id := range ids {
+		if id == last {
+			continue
+		}
+		last = id
+		t, u, r := k.Entry(id)
+		if t != id || u != id || r != id {
+			out = append(out, fmt.Sprintf("k.%d.%d.%d.%d", id, t, u, r))
+		}
+	}
+	return out
+}
+
+// StripKeyTokens removes k. tokens (they are re-observed on every run).
+func StripKeyTokens(ops []string) []string {
+	var out []string
+	for _, o := range ops {
+		if !strings.HasPrefix(o, "k.") {
+			out = append(out, o)
+		}
+	}
+	return out
 }
